@@ -4,8 +4,10 @@ import (
 	"encoding/hex"
 	"fmt"
 	"os"
+	"path/filepath"
 	"reflect"
 	"strings"
+	"sync"
 	"testing"
 	"unicode/utf8"
 
@@ -241,11 +243,24 @@ func checkC14(c c14Case) error {
 		how := ""
 		env.Opts = interp.NoGlob
 		if glob {
-			if !c14GlobNeutral(c, want) {
+			neutral, bs := c14GlobNeutral(c, want)
+			if !neutral {
 				break
 			}
 			env.Opts = 0
 			how = " with pathname expansion on"
+			if bs {
+				// a backslash that an expansion brings into a field is a
+				// character of the field; without a pattern character there
+				// is nothing to expand, also when a file is named like the
+				// field without its backslashes
+				leave, err := c14EnterDir(want)
+				if err != nil {
+					return fmt.Errorf("harness: %v", err)
+				}
+				defer leave()
+				how = " with pathname expansion on, in a directory with files named like the fields without their backslashes"
+			}
 		}
 		if c.IFSSet {
 			env.Set("IFS", ifs)
@@ -275,25 +290,79 @@ func checkC14(c c14Case) error {
 }
 
 // c14GlobNeutral: pathname expansion cannot change the fields of this word,
-// whatever the working directory holds: no unquoted pattern character or
-// backslash in it, and no field that is an absolute path.
-func c14GlobNeutral(c c14Case, want []string) bool {
+// whatever the working directory holds: no unquoted pattern character in it,
+// and no field that is an absolute path. bs: there is an unquoted backslash
+// in it (then the working directory is made adversarial, see c14EnterDir).
+func c14GlobNeutral(c c14Case, want []string) (neutral, bs bool) {
 	for _, s := range c.Segs {
-		if !s.Quoted && strings.ContainsAny(s.Text, "*?[\\") {
-			return false
+		if !s.Quoted && strings.ContainsAny(s.Text, "*?[") {
+			return false, false
 		}
+		bs = bs || !s.Quoted && strings.Contains(s.Text, `\`)
 	}
 	for _, a := range c.Args {
 		if strings.ContainsAny(a, "*?[\\") {
-			return false
+			return false, false
 		}
 	}
 	for _, f := range want {
 		if strings.HasPrefix(f, "/") {
-			return false
+			return false, false
 		}
 	}
-	return true
+	return true, bs
+}
+
+// c14Dir: the scratch directory of this process and the files made in it.
+var c14Dir struct {
+	once sync.Once
+	wd   string
+	path string
+	err  error
+	made map[string]bool
+}
+
+// c14EnterDir enters a scratch directory that holds a file named like every
+// field with its backslashes taken out. Files of earlier cases stay (a field
+// without a pattern character is not looked up, whatever else is there).
+func c14EnterDir(fields []string) (leave func(), err error) {
+	d := &c14Dir
+	d.once.Do(func() {
+		d.wd, _ = os.Getwd()
+		d.path = filepath.Join(outDir(), fmt.Sprintf("c14-glob-%d", os.Getpid()))
+		d.err = os.MkdirAll(d.path, 0o755)
+		d.made = map[string]bool{}
+	})
+	if d.err != nil {
+		return nil, d.err
+	}
+	if len(d.made) > 5000 {
+		for n := range d.made {
+			os.Remove(filepath.Join(d.path, n))
+		}
+		d.made = map[string]bool{}
+	}
+	for _, f := range fields {
+		n := strings.ReplaceAll(f, `\`, "")
+		if n == "" || n == "." || n == ".." || len(n) > 200 || strings.ContainsAny(n, "/\x00") || d.made[n] {
+			continue
+		}
+		if os.WriteFile(filepath.Join(d.path, n), nil, 0o644) == nil {
+			d.made[n] = true
+		}
+	}
+	if err := os.Chdir(d.path); err != nil {
+		return nil, err
+	}
+	return func() { os.Chdir(d.wd) }, nil
+}
+
+// c14LeaveDir removes the scratch directory at the end of the test.
+func c14LeaveDir() {
+	if c14Dir.path != "" {
+		os.Chdir(c14Dir.wd)
+		os.RemoveAll(c14Dir.path)
+	}
 }
 
 func segString(segs []ref.Seg) string {
@@ -402,6 +471,7 @@ var c14Cfgs = []c14IFS{
 }
 
 func TestC14(t *testing.T) {
+	defer c14LeaveDir()
 	st := newStats("C14")
 	defer st.Write()
 	sh, nsh := shard()
